@@ -116,16 +116,16 @@ type observation struct {
 }
 
 type inst struct {
-	prop    string
-	c       cfg
-	root    *hx.Root
-	top     *hx.Node
-	leaf    *hx.Node // node whose cache is the subject (nested: the inner one)
-	nodes   []*hx.Node
-	refDone int // Refilter calls that returned nil
+	prop       string
+	c          cfg
+	root       *hx.Root
+	top        *hx.Node
+	leaf       *hx.Node // node whose cache is the subject (nested: the inner one)
+	nodes      []*hx.Node
+	refDone    int // Refilter calls that returned nil
 	refStarted int
-	refErr  []string
-	obs     []observation
+	refErr     []string
+	obs        []observation
 	// final reads at quiescence
 	finalRead   bool
 	parentFinal string
